@@ -126,6 +126,25 @@ NOTE['C13'] = 'Object-level kernels only. Trusted: Verus/Z3 (ghost monitor of fo
 TECH['C13'] = 'contract-based deductive verification (Verus, Z3) of Env::wait_for_subshell / _to_halt / _to_finish / update_all_subshell_statuses against a ghost call monitor + Kani harness-encoded contract of the wait built-in job_status step on the real crate (bounded: tables of <= 1 job, contents symbolic)'
 
 
+# --- units added in the session of 2026-09-24/25 (subshellcmd, pipelinerun, startwait, unsetbi, cmdsubst, subshellstart) ---
+LEVEL_TEXT['C13'] = LEVEL_TEXT['C13'].replace('Two object-level kernels.', 'Object-level kernels.') + ' Added: unbounded Verus proofs, against ghost monitors of their opaque callees, that a multi-command pipeline starts one child per command in order, closes its last pipe end before it waits, awaits every child exactly once leaving none unreaped, and reports the status of the last command or of the rightmost failure under pipefail (pipeline.rs); that Config::start_and_wait hands out the last halt of exactly the child it started and accepts a mere stop only for a job-controlled child; that Config::start forks once and the child runs its task exactly once after enter_subshell and then exits; that command substitution awaits its child until a halt that is not a stop and records the status it stands for.'
+NOTE['C13'] = NOTE['C13'].replace('pipefail, $!, zombies', '$!') + ' Units pipelinerun, startwait, subshellstart, cmdsubst: what the children do and when is not modelled; the calls are opaque and only their order, arguments and number are decided.'
+TECH['C13'] = TECH['C13'].replace(' against a ghost call monitor +', ', of execute_commands_in_pipeline / execute_multi_command_pipeline / execute_job_controlled_pipeline and their helpers, Config::start, Config::start_and_wait, command_subst::expand_common against ghost call monitors +')
+LEVEL_TEXT['C02'] = LEVEL_TEXT['C02'].replace('Everything a command does is an opaque call', 'the subshell compound command sets $? to the status of the awaited child; a pipeline of no command has status 0, of one command is that command, of several has the status of the last (rightmost failure under pipefail); the first run of a for body starts with the $? the loop was entered with. Everything a command does is an opaque call')
+NOTE['C02'] = NOTE['C02'].replace('multi-command pipelines and subshells, ', '')
+TECH['C02'] = TECH['C02'].replace('SimpleCommand::execute,', 'SimpleCommand::execute, subshell::execute / subshell_main, execute_commands_in_pipeline and the pipeline runners,')
+LEVEL_TEXT['C10'] = LEVEL_TEXT['C10'].replace('What built-in dispatch does', 'A subshell compound command and a multi-command pipeline (with or without job control) consult errexit exactly once, after $? was set to their status; inside a subshell the EXIT trap runs exactly once after the body. What built-in dispatch does')
+NOTE['C10'] = NOTE['C10'].replace('the other callers of apply_errexit (pipelines, subshells, built-ins)', 'the callers of apply_errexit in built-in execution')
+TECH['C10'] = TECH['C10'].replace('the read-eval loop', 'subshell::execute / subshell_main, execute_commands_in_pipeline, the read-eval loop')
+LEVEL_TEXT['C08'] = LEVEL_TEXT['C08'].replace('The rest of C08', 'Added: Config::start (the start-up code of every subshell kind) forks once, saves and restores the parent\'s signal mask on every path, and its child body - checked on a copy of the environment - disowns the jobs, calls enter_subshell exactly once before the task, runs the task once in a Subshell frame with the parent\'s options unchanged, and exits without returning into the parent\'s code; the subshell compound command runs its body only in the child; command substitution leaves neither pipe end behind in the parent on any path. The rest of C08')
+NOTE['C08'] = NOTE['C08'] + ' Units subshellstart / subshellcmd / cmdsubst: fork is modelled as "the child body works on a copy of Env"; that the copy is faithful and that nothing flows back (ForkEnvState, the simulated process table) is assumed, not decided.'
+TECH['C08'] = TECH['C08'] + ', Config::start (child closure checked inline on a copy of the environment), subshell::execute / subshell_main and command_subst::subshell_body / expand_common against ghost monitors and a descriptor-table model'
+LEVEL_TEXT['C14'] = LEVEL_TEXT['C14'] + ' Added (units cmdsubst, pipeset): in command substitution the child\'s standard output is the writing end of the pipe and the parent closes its copy of that end before the single read_all of the reading end, leaving neither end behind; pipeline elements are wired to exactly the previous and the next pipe. The removal of the trailing newlines (string code) is NOT under contract.'
+NOTE['C14'] = NOTE['C14'].replace('command substitution, ', 'the UTF-8 / trailing-newline tail of command substitution, ')
+TECH['C14'] = TECH['C14'] + ', and of command_subst::subshell_body / expand_common and PipeSet::move_to_stdin_stdout against a ghost descriptor table'
+LEVEL_TEXT['C16'] = LEVEL_TEXT['C16'] + ' Added (unit unsetbi): the unset built-in asks the store to unset every operand once, in order, in the global scope.'
+TECH['C16'] = TECH['C16'] + ', and of unset_variables / unset_functions of the unset built-in against a log of the store requests'
+
 def main():
     checks = []
     for pid in ALL:
